@@ -93,6 +93,8 @@ def main():
         include_dependency(chk, tasks, 'C04', '', 'recovery computes u2*R with the variable-time GLV multiply (toy layer: contract)')
         include_dependency(chk, tasks, 'C05', 'table lookup basemult', 'recovery computes u1*G with scalarBaseMultVartime (toy layer: contract)')
         include_dependency(chk, tasks, 'C16', 'dsm', 'recovery calls DoubleScalarMultBasepointVartime (toy layer: contract)')
+    from .common import include_ring_dependency
+    include_ring_dependency(chk, tasks, 'C01', 'field', ['field_sqrt'], 'RecoverPoint solves y^2 = x^3 + 7 with Element.Sqrt (contract: root iff square, zero otherwise); the real code is re-decided here')
     chk.run_tasks(tasks)
     chk.discharge()
     chk.finish()
